@@ -29,3 +29,10 @@ Definition num_eqb (a b : num) : bool :=
   end.
 
 Definition val_of_num (n : num) : pyval := match n with NI z => PInt z | NF f => PFloat f end.
+
+(* ---- the registry of jsonargparse/typing.py (register_type / register_type_on_first_use calls),
+        as translated into Gen/C20Registry.v: type name |-> (serializer, deserializer) by the name of
+        the function passed. SerStr / DesClass are register_type's defaults (str / the class). *)
+Inductive serfn := SerStr | SerFloat | SerDecimal | SerBytes | SerRange | SerOther (name : str).
+Inductive desfn := DesClass | DesStr | DesDecimal | DesTimedelta | DesBytes | DesBytearray | DesRange
+                 | DesOther (name : str).
